@@ -208,7 +208,8 @@ def isoluminant_pair(rng):
     repo_import()
     from cm_colors.core.contrast import calculate_relative_luminance as lum
     h1, h2 = rng.random(), rng.random()
-    t = tuple(int(round(255 * x)) for x in colorsys.hsv_to_rgb(h1, rng.uniform(0.7, 1.0), rng.uniform(0.5, 1.0)))
+    # half of the texts sit on the surface of the sRGB gamut (a channel at 0): the descent phase cannot rescue a bad first candidate there
+    t = tuple(int(round(255 * x)) for x in colorsys.hsv_to_rgb(h1, rng.choice([1.0, rng.uniform(0.94, 1.0), rng.uniform(0.7, 1.0)]), rng.uniform(0.5, 1.0)))
     target = lum(t) * rng.uniform(0.85, 1.15)
     lo, hi = 0.0, 1.0
     s = rng.uniform(0.7, 1.0)
@@ -230,9 +231,9 @@ def order_disagree_pair(rng):
     from cm_colors.core.conversions import rgb_to_oklch
     from cm_colors.core.contrast import calculate_relative_luminance as lum, calculate_contrast_ratio as ratio
     for _ in range(3000):
-        t = tuple(int(round(255 * x)) for x in colorsys.hsv_to_rgb(rng.random(), rng.uniform(0.6, 1), rng.uniform(0.4, 1)))
+        t = tuple(int(round(255 * x)) for x in colorsys.hsv_to_rgb(rng.random(), rng.choice([1.0, rng.uniform(0.94, 1.0), rng.uniform(0.6, 1)]), rng.uniform(0.4, 1)))
         b = tuple(int(round(255 * x)) for x in colorsys.hsv_to_rgb(rng.random(), rng.uniform(0.6, 1), rng.uniform(0.4, 1)))
-        if (rgb_to_oklch(t)[0] > rgb_to_oklch(b)[0]) != (lum(t) > lum(b)) and ratio(t, b) >= 1.08:
+        if (rgb_to_oklch(t)[0] > rgb_to_oklch(b)[0]) != (lum(t) > lum(b)) and ratio(t, b) >= rng.choice([1.03, 1.08]):
             return t, b
     return isoluminant_pair(rng)
 
